@@ -160,6 +160,7 @@ inductive Op (K V : Type) where
 
 inductive Out (K V : Type) where
   | unit | val (v : V) | bool (b : Bool) | nat (n : Nat) | keys (ks : List K) | vals (vs : List V)
+deriving DecidableEq
 
 def step (c : Cache K V) : Op K V → Cache K V × Out K V
   | .set k v => (set c k v, .unit)
